@@ -3,7 +3,7 @@
 p=$1; shift
 cd /repo && git apply "$p" || { echo "cannot apply $p"; exit 2; }
 for id in "$@"; do
-  out=$(cd /verif && ./check $id 2>&1 | grep -E "VIOLATION|BROKEN|^property=" | cut -c1-260)
+  out=$(cd /verif && GOVC_EVIDENCE_DIR=/verif/work/seed-evidence ./check $id 2>&1 | grep -E "VIOLATION|BROKEN|^property=" | cut -c1-260)
   echo "--- $p on $id"; echo "$out"
 done
 cd /repo && git checkout -q -- . && git status --short | grep -v "^??" | head
